@@ -218,6 +218,12 @@ func main() {
 				if rng.Intn(3) == 0 {
 					am["artifactType"] = "application/vnd.example.other"
 				}
+				if rng.Intn(2) == 0 {
+					// members the (withdrawn) artifact-manifest spec does not know: other producers wrote them, readers ignore them
+					am["schemaVersion"] = 2
+					am["io.example.vendor-extension"] = map[string]any{"a": []int{1, 2}}
+					r.Event("legacy-manifests-with-unknown-members")
+				}
 				d := pushJSON(ctx, store, legacyArtifactManifest, am)
 				trace = append(trace, fmt.Sprintf("legacy artifact manifest of type %v for subject#%d", am["artifactType"], si))
 				if am["artifactType"] == registry.ArtifactTypeNotation {
